@@ -575,9 +575,11 @@ fn main() {
         }
         only = Some(r);
     } else {
-        units.push(dealloc_unit());
-        units.extend(boundary_units());
-        if tier != "miri" {
+        if tier == "miri" {
+            units.push(miri_unit());
+        } else {
+            units.push(dealloc_unit());
+            units.extend(boundary_units());
             units.push(limits_unit());
         }
         let mut stats = (0, 0);
@@ -606,7 +608,7 @@ fn main() {
         }
     }
     if tier == "miri" {
-        work.truncate(80);
+        work.truncate(16);
     }
     rep.extra.insert("work_items".into(), json!(work.len()));
     let ctxs: Vec<Ctx> = units.iter().map(|u| Ctx::new(&u.resolve)).collect();
